@@ -49,7 +49,8 @@ REQUIRED = ('log_replays', 'double_runs', 'copies_taken',
             'copies_in_phase:showdown', 'copies_in_phase:pull',
             'copies_in_phase:bet', 'copies_in_phase:deal',
             'records_compared_with_state_delta', 'odd_chip_push_records',
-            'observer_query_points')
+            'observer_query_points',
+            'interleave_points')
 
 CUSTOMS = ('kuhn', 'draw5', 'stud5', 'greek', 'courchevel', 'holdem8',
            'plo8', 'badugi1', 'razzdraw', 'random')
@@ -382,7 +383,7 @@ class PostShow(Monitor):
 
 
 def make_monitors():
-    return [driver.Observer(), PostShow(), RecordMonitor(), CopyMonitor()]
+    return [driver.Observer(), driver.Interleaver(), PostShow(), RecordMonitor(), CopyMonitor()]
 
 
 def gen_kwargs(rng):
